@@ -31,7 +31,7 @@ constexpr Ch alpha(unsigned i)
 {
     switch (i) {
     case 0: return Ch('a');
-    case 1: return sizeof(Ch) == 1 ? static_cast<Ch>(0xE9) : static_cast<Ch>(~Ch(0x16)); // top bit set
+    case 1: return static_cast<Ch>(-1); // all bits set
     default: return sizeof(Ch) == 1 ? Ch(0) : static_cast<Ch>(Ch('a') + 0x100);          // narrow: NUL; wide: equal to 'a' modulo 256
     }
 }
